@@ -81,6 +81,12 @@ def make_check_fn(kind, site):
         def fn(s):
             fault_point(site)
             return s.notna()
+    elif kind == "vec_warns":      # a check that emits a RuntimeWarning every time (numpy: log of zero) and passes
+        def fn(s):
+            fault_point(site)
+            import warnings as _w
+            _w.warn("numerical trouble in a user check", RuntimeWarning)
+            return s.notna() | s.isna()
     elif kind == "vec_scalar":     # series -> scalar bool
         def fn(s):
             fault_point(site)
@@ -152,6 +158,14 @@ def make_parser_fn(kind, site):
         def fn(x):
             fault_point(site)
             return x
+    elif kind == "dfparse_drop_first":       # dataframe-level parser that changes the *set of columns*
+        def fn(df):
+            fault_point(site)
+            return df.drop(columns=[df.columns[0]]) if df.shape[1] else df
+    elif kind == "dfparse_rename_first":
+        def fn(df):
+            fault_point(site)
+            return df.rename(columns={df.columns[0]: "renamed_by_parser"}) if df.shape[1] else df
     else:
         raise ValueError(kind)
     return _tag(fn, kind, site)
@@ -193,8 +207,8 @@ def make_pl_check_fn(kind, site):
 
 
 COL_CB = {  # callback kinds usable on a pandas column, by dtype family
-    "num": ["vec_ge0", "vec_notnull", "vec_scalar", "elem_lt100", "elem_true", "vec_false_scalar"],
-    "any": ["vec_notnull", "vec_scalar", "elem_true", "vec_false_scalar"],
+    "num": ["vec_ge0", "vec_notnull", "vec_scalar", "elem_lt100", "elem_true", "vec_false_scalar", "vec_warns"],
+    "any": ["vec_notnull", "vec_scalar", "elem_true", "vec_false_scalar", "vec_warns"],
 }
 DF_CB = ["df_rowsum", "df_firstcol_nonneg", "df_scalar", "df_elem_row", "df_false_scalar"]
 PL_COL_CB = {"num": ["pl_ge0", "pl_notnull", "pl_scalar", "pl_elem_true"], "any": ["pl_notnull", "pl_scalar", "pl_elem_true"]}
@@ -248,7 +262,7 @@ class SpecGen:
             o["ignore_na"] = False
         if self.feat["raise_warning"] and r.random() < 0.15:
             o["raise_warning"] = True
-        if r.random() < 0.15:
+        if r.random() < 0.15 * getattr(self, "p_boost", 1.0):
             o["n_failure_cases"] = r.choice([1, 2])
         return o
 
@@ -318,7 +332,7 @@ class SpecGen:
                 out.append(self.builtin_check(dtype))
         return out
 
-    def parsers(self, backend):
+    def parsers(self, backend, level="col"):
         r = self.rng
         if backend != "pandas" or not self.feat["parsers"] or r.random() < 0.5:
             return []
@@ -326,6 +340,11 @@ class SpecGen:
         for _ in range(r.choice([1, 1, 2])):
             kind = r.choice(["parse_ident", "parse_abs", "parse_elem_ident"])
             out.append({"cb": kind, "site": self.site("p"), "element_wise": kind in ELEMENTWISE})
+        if level == "df" and out:
+            r2 = random.Random(r.getrandbits(32))
+            if r2.random() < 0.35:
+                out[r2.randrange(len(out))] = {"cb": r2.choice(["dfparse_drop_first", "dfparse_rename_first"]), "site": out[0]["site"],
+                                               "element_wise": False}
         return out
 
     def column(self, name, backend, other_cols=(), regex=False):
@@ -394,7 +413,7 @@ class SpecGen:
             spec["columns"] = cols
             spec["index"] = self.index(backend) if kind == "dfs" else None
             spec["checks"] = self.checks(None, backend, "df") if self.feat["df_checks"] else []
-            spec["parsers"] = self.parsers(backend) if kind == "dfs" else []
+            spec["parsers"] = self.parsers(backend, level="df") if kind == "dfs" else []
             spec["dtype"] = r.choice(["int64", "float64"]) if (kind == "dfs" and self.feat["schema_dtype"] and r.random() < 0.3) else None
             spec["coerce"] = self.feat["coerce"] and r.random() < 0.3
             spec["strict"] = (True if self.feat["strict"] and r.random() < 0.5 else
